@@ -157,6 +157,11 @@ def do_layout(q):
         ent['align'] = t.alignof
     except Exception:
         ent['align'] = 8 if t.sizeof >= 8 else (4 if t.sizeof >= 4 else 1)
+    if t.code in (gdb.TYPE_CODE_STRUCT, gdb.TYPE_CODE_UNION):
+        try:
+            ent['opaque_bases'] = [[qname_of(f.type), f.bitpos // 8] for f in t.fields() if f.is_base_class]
+        except Exception:
+            ent['opaque_bases'] = []
     if is_transparent(q):
         body = layout_body(t)
         if body is not None:
